@@ -86,40 +86,47 @@ def r_track(ctx):
                 else:
                     why = "%d tracked-list appends" % len(apps)
             ctx.ob("R-TRACK", "%s.%s::tracked once" % (be.name, meth), ok, why, loc(fn, fn))
-    # assign_dual_values zips the tracked list with the recovered list minus its first element (the Gram residual)
+    # assign_dual_values, unrolled for every sequence of tracked kinds up to length 3: the k-th tracked object stores element k+1 of the
+    # recovered list (element 0 is the Gram residual), whatever its kind; the residual is returned
+    from ..miniint import IndexInterp, SymObj
+    import itertools as _it
     fn = base.methods.get("assign_dual_values")
     if fn is None:
         raise AnalysisError("Wrapper.assign_dual_values missing")
     ctx.unit(qualname(fn))
-    zips = [c for c in ast.walk(fn) if isinstance(c, ast.Call) and call_name(c) == "zip"]
-    ok = False
-    msg = "no zip of the tracked list with the recovered multipliers"
-    rec_call = [s for s in flow.stmts_of(fn, ast.Assign) if isinstance(s.value, ast.Call) and call_name(s.value) == "_recover_dual_values"]
-    names = [dotted(e) for e in rec_call[0].targets[0].elts] if rec_call and isinstance(rec_call[0].targets[0], ast.Tuple) else []
-    if len(zips) == 1 and len(zips[0].args) == 2 and len(names) == 2:
-        a, b = zips[0].args
-        ok = dotted(a) == "self." + TRACKED and isinstance(b, ast.Subscript) and dotted(b.value) == names[0] and isinstance(b.slice, ast.Slice) \
-            and is_const(b.slice.lower, 1) and b.slice.upper is None and b.slice.step is None
-        msg = "multiplier k+1 of the recovered list goes to the k-th tracked object" if ok else \
-            "zip(%s, %s): the k-th tracked object does not receive element k+1 of the recovered list" % (src(a), src(b))
-    ctx.ob("R-TRACK", "Wrapper.assign_dual_values::alignment", ok, msg, loc(fn, zips[0] if zips else fn))
-    # the loop stores the zipped value itself, on both kinds
-    lp = [l for l in flow.stmts_of(fn, ast.For) if any(z is l.iter for z in zips)]
-    ok2 = False
-    if lp and isinstance(lp[0].target, ast.Tuple) and len(lp[0].target.elts) == 2:
-        obj, val = [e.id for e in lp[0].target.elts]
-        stores = [s for s in flow.stmts_of_block(lp[0]) if isinstance(s, ast.Assign) and isinstance(s.targets[0], ast.Attribute)
-                  and s.targets[0].attr == "_dual_variable_value"]
-        pc = flow.path_counts(lp[0].body, lambda n: False, lambda st: st in stores)
-        normal = pc.get("next", set()) | pc.get("continue", set())
-        ok2 = len(stores) >= 1 and all(dotted(s.targets[0].value) == obj and dotted(s.value) == val for s in stores) and normal == {1} \
-            and "break" not in pc and "return" not in pc
-    ctx.ob("R-TRACK", "Wrapper.assign_dual_values::stores the paired value", ok2,
-           "each tracked object stores the multiplier paired with it" if ok2 else "the stored multiplier is not the zipped value on both kinds", loc(fn, fn))
-    ret = [r for r in ast.walk(fn) if isinstance(r, ast.Return)]
-    ok3 = len(ret) == 1 and len(names) == 2 and dotted(ret[0].value) == names[1]
-    ctx.ob("R-TRACK", "Wrapper.assign_dual_values::returns the residual", ok3,
-           "returns the Gram residual recovered by the back-end" if ok3 else "does not return the recovered residual", loc(fn, fn))
+    bad = None
+    for length in (0, 1, 2, 3):
+        for kinds in _it.product(("Constraint", "PSDMatrix"), repeat=length):
+            objs = [SymObj(kd, shape=("shape", k), label="o%d" % k) for k, kd in enumerate(kinds)]
+            duals = [SymObj("dual", shape=("attr", "Point.counter"), label="residual")] + [SymObj("dual", shape=("shape", k), label="d%d" % k) for k in range(length)]
+            residual = duals[0]
+
+            def on_call(node, it, duals=duals, residual=residual):
+                if call_name(node) == "_recover_dual_values":
+                    return (list(duals), residual)
+                return NotImplemented
+            it = IndexInterp({"self." + TRACKED: list(objs), "Constraint": ("type", "Constraint"), "PSDMatrix": ("type", "PSDMatrix")}, on_call=on_call)
+            label = "tracked kinds %s" % ([k[0] for k in kinds] or "(none)")
+            try:
+                ret = it.run(fn.body)
+            except AnalysisError as e:
+                bad = "%s: not interpretable: %s" % (label, e)
+                break
+            for k, o in enumerate(objs):
+                got = o.attrs.get("_dual_variable_value")
+                if got is not duals[k + 1]:
+                    bad = "%s: tracked object #%d stores %s, expected element %d of the recovered list (element 0 is the Gram residual)" % (
+                        label, k, "nothing" if got is None else repr(got), k + 1)
+                    break
+            if bad:
+                break
+            if ret is not residual:
+                bad = "%s: returns `%r`, not the recovered residual" % (label, ret)
+                break
+        if bad:
+            break
+    ctx.ob("R-TRACK", "Wrapper.assign_dual_values::alignment", bad is None,
+           "for every sequence of tracked kinds (length <= 3) object k stores recovered multiplier k+1 and the residual is returned" if bad is None else bad, loc(fn, fn))
     # each back-end's recovery emits the residual first, then one element per tracked object on every branch
     for be in common.backends(repo):
         fn = be.methods.get("_recover_dual_values")
@@ -1307,33 +1314,9 @@ def r_mosekrow(ctx):
     their own columns; the variables are sized as generate_problem asserts and the function-value columns are free."""
     repo = ctx.repo
     mb = _be(repo, "mosek")
-    for meth in ("send_constraint_to_solver", "send_lmi_constraint_to_solver"):
-        fn = mb.methods[meth]
-        ctx.unit(qualname(fn))
-        tr = _sparse_unpack(fn)
-        if tr is None:
-            ctx.ob("R-MOSEKROW", "MosekWrapper.%s::sparse translation" % meth, False, "the row is not built from the sparse translation of the expression", loc(fn, fn))
-            continue
-        gi, gj, gv, fi, fv, cst = tr
-        mats = [s0 for s0 in flow.stmts_of(fn, ast.Assign) if isinstance(s0.value, ast.Call) and call_name(s0.value) == "appendsparsesymmat"
-                and [src(a) for a in s0.value.args[1:]] == [gi, gj, gv]]
-        ok = len(mats) == 1 and src(mats[0].value.args[0]) == "Point.counter"
-        msg = "the Gram part is the sparse symmetric matrix of the translation"
-        if ok:
-            sym = dotted(mats[0].targets[0])
-            bar = [c for c in ast.walk(fn) if isinstance(c, ast.Call) and call_name(c) == "putbaraij" and len(c.args) == 4 and is_const(c.args[1], 0)]
-            ok = len(bar) == 1 and src(bar[0].args[2]).replace(" ", "") == "[%s]" % sym and isinstance(bar[0].args[3], ast.List) and len(bar[0].args[3].elts) == 1 \
-                and is_const(bar[0].args[3].elts[0]) and bar[0].args[3].elts[0].value == 1
-            if not ok:
-                msg = "the Gram part enters the row as `%s`, expected weight 1 on bar-variable 0 with that matrix" % (src(bar[0]) if bar else "nothing")
-            else:
-                aij = [c for c in ast.walk(fn) if isinstance(c, ast.Call) and call_name(c) == "putaijlist" and len(c.args) == 3]
-                ok = len(aij) == 1 and [src(a) for a in aij[0].args[1:]] == [fi, fv]
-                if not ok:
-                    msg = "the function-value part enters the row as `%s`, expected the F indices / weights of the translation" % (src(aij[0]) if aij else "nothing")
-        else:
-            msg = "no sparse symmetric matrix built from the (row, column, value) triplets of the translation with dimension Point.counter"
-        ctx.ob("R-MOSEKROW", "MosekWrapper.%s::row data" % meth, ok, msg if not ok else "row = <A, G> + a . F with the translation's data", loc(fn, fn))
+    # the row data (<A, G> with weight 1 on variable 0, a.F, bound) are decided on the unrolled task programs
+    from . import mosekprog
+    mosekprog.r_mosek_rows(ctx)
     # variables
     fn = mb.methods["set_main_variables"]
     gp = mb.methods["generate_problem"]
